@@ -453,6 +453,19 @@ impl<'a, W: 'static, R: 'static, T: 'static> RuntimeScope<'a, W, R, T> {
                 if let Some(err) = args.iter().find_map(|a| a.as_ref().err()) {
                     return Ok(TailedEvalResult::Value(Err(err.clone())));
                 }
+                // a default value that stands in for an omitted argument is an argument like any other
+                let omitted_defaults = |given: usize| {
+                    let default_offset = template.param_count - template.defaults.len();
+                    template
+                        .defaults
+                        .iter()
+                        .skip(given.saturating_sub(default_offset))
+                        .find_map(|d| d.as_ref().err())
+                        .cloned()
+                };
+                if let Some(err) = omitted_defaults(args.len()) {
+                    return Ok(TailedEvalResult::Value(Err(err)));
+                }
                 {
                     rt.increment_call_limit()?;
                     rt.check_timeout()?;
@@ -473,6 +486,9 @@ impl<'a, W: 'static, R: 'static, T: 'static> RuntimeScope<'a, W, R, T> {
                             }
                             if let Some(err) = new_args.iter().find_map(|a| a.as_ref().err()) {
                                 break Ok(TailedEvalResult::Value(Err(err.clone())));
+                            }
+                            if let Some(err) = omitted_defaults(new_args.len()) {
+                                break Ok(TailedEvalResult::Value(Err(err)));
                             }
                             // a tail call begins the function again: the time limit applies like for any call
                             rt.check_timeout()?;
